@@ -12,7 +12,7 @@ CHECKS = {
     "C17": dict(level="proof", engine="pyvc",
                 text="Every obligation generated from the current source of search_bisection, search_bisection_vec, CubicHermiteInterp.__call__ and .grad "
                      "(pre/post, loop invariants, variants, index bounds, cubic exactness, grad-is-derivative) is discharged by z3 for all array lengths, "
-                     "all queries and all cubics; scalar/vector agreement is a lemma over the two contracts.",
+                     "all queries and all cubics; scalar/vector agreement is a lemma over the two contracts. CubicHermiteInterp.__init__ under contract (end data stay with their end for either orientation; the piece holds private copies of its data: ownership clause by object identity). The query of the bisection searches is judged as given (old(val)); dtype provenance tracked (a cast of the query to the array's type is a refuted post-condition).",
                 note="floats as reals (A1), executor's Python/numpy encoding (A2, A3), element-wise lifting of the vector search (A4); z3 trusted; canaries refuted and native enumeration agree on every run",
                 technique="contracts + loop invariants on the real AST, VCs discharged by z3 (LIA + arrays + NRA)",
                 design_ref="DESIGN.md section 4 C17"),
@@ -21,7 +21,7 @@ CHECKS["C14"] = dict(level="proof", engine="pyvc",
     text="brentsroot and brentsrootvec (element-wise lifted; callable and list front ends; tol given / None) are verified against the property's clauses "
          "for every function f (uninterpreted), bracket order and tolerance: bracket invariant, P1 inside bracket, P2 located sign change on the convergence exit, "
          "P4 meaning of success, P5 success under a sign change at any scale, P6 no false success, iteration-cap variant, and P7 scalar/vector agreement as a lock-step "
-         "relational proof (initial states, one iteration, exit decisions); _bracket_tol under contract (the stopping width is the requested tolerance but never below eps * max(|a|, |b|): the lemma that makes the stopping test reachable in floating point). The scalar early exit (inf, False) is a recorded known finding (F10a).",
+         "relational proof (initial states, one iteration, exit decisions); _bracket_tol under contract (the stopping width is the requested tolerance but never below eps * max(|a|, |b|): the lemma that makes the stopping test reachable in floating point). The scalar early exit (inf, False) is a recorded known finding (F10a). Ownership clause: the bracket arrays the caller passed are not written into (refuted on the unrepaired tree: defect F36, repaired). _bracket_tol takes its epsilon from the bracket's type (dtype provenance).",
     note="floats as reals (A1) - the float side (float32, scales 1e-6..1e9) is only exercised by the bounded native family, labelled bounded; the interpolated point s is abstracted "
          "to an arbitrary real in the contract proofs; 'within tol' is proved for the convergence exit, on the 64-iteration cap exit only 'sign change between the returned end points'; A4 lifting",
     technique="contracts + loop invariants + relational lock-step on the real AST, VCs discharged by z3 (NRA + UF)",
@@ -38,7 +38,7 @@ CHECKS["C02"] = dict(level="proof", engine="pyvc",
     text="compute_step, RungeKuttaIntegrator.step, algebraic_system and ExplicitSymplecticIntegrator.step are executed symbolically (uninterpreted right-hand side, symbolic t, y, h; LinComb domain) for "
          "all 32 shipped tables and proved equal to an independently written specification of the Runge-Kutta / drift-kick formulas, incl. stale-buffer frames and FSAL branches; the branch flags (_explicit, _fsal, _adaptive) are proved from the real constructors (TableauIntegrator / RungeKuttaIntegrator.__init__) to be the defining predicates of the tables; "
          "the tolerance handed to the nonlinear solver is a function of this step's state and the integrator's atol / rtol only (data-flow clause, step executed from an arbitrary solver_dict with the keys the constructor creates); "
-         "RungeKuttaIntegrator.__call__ is executed over its control skeleton: an implicit step whose solve did not converge is never returned.",
+         "RungeKuttaIntegrator.__call__ is executed over its control skeleton: an implicit step whose solve did not converge is never returned. The success flag of an implicit step implies that the residual *this* call of nonlinear_roots returned is below the tolerance it was given (comparison provenance), not a value an earlier solve left in solver_dict.",
     note="the nonlinear solve itself is external (A6, assumed contract; native stage residuals are a bounded clause); floats as reals (A1); shapes/dtypes not modelled",
     technique="symbolic execution of the real functions in a free-vector-space domain, exact polynomial identity; control-flow post-condition by z3",
     design_ref="DESIGN.md section 4 C02")
@@ -133,7 +133,7 @@ CHECKS["C07"] = dict(level="proof", engine="pyvc",
          "compatible with a sampled crossing. OdeSystem.integrate with events (real text incl. prepare_events, the recording loop, duplicate suppression, terminal branch, pruning; real DenseOutput.add/remove over symbolic-length "
          "lists): records of earlier calls untouched; each record of this call lies in the step it was found in, between the start of the call and the current time; its state is the dense solution at its time "
          "(sol(t) answered by a piece containing t: C06 contract, pre-condition proved at the call site); records in integration order; two records of one event made by one call are more than eps^0.7 apart "
-         "(invariant: last_occurrence[k] is the latest record of event k).",
+         "(invariant: last_occurrence[k] is the latest record of event k). Wrapper k handed to the root finder is event k on the dense solution, with its gradient exactly when requested (all mixes of requires_dstate, from the executed closures). Known finding F35 (a shallow crossing just before a step boundary reported twice) is witnessed natively on every run.",
     note="'within tolerance of a true root along the exact trajectory' is numerical analysis: bounded native family against closed-form crossings only; uniqueness is per call (cross-call re-detection on a terminal event is "
          "known finding F27); dense output kept + events only natively; quick tier: n = 1 both directions, n = 2 forward; A1, A4",
     technique="contracts + loop invariant (ghost: latest record per event) on the real integrate / handle_events, callee contracts proved in C14 / C06 and re-proved here, VCs (arrays, quantifiers) by z3",
@@ -142,7 +142,7 @@ CHECKS["C08"] = dict(level="proof", engine="pyvc",
     text="The completeness chain, link by link on the real functions: (1) Brent success on a sign-changing bracket at any scale (C14 P5); (2) handle_events no-miss lemma: a certified strict sign change with a compatible "
          "direction is among the returned events unless it lies after the terminal event that cut the list (isolated-crossing hypothesis explicit); (3) integrate records every returned root in the same iteration unless it "
          "repeats the latest record of that event (ghost obligation at the end of every loop iteration); (4) at the call of handle_events the newest piece of the real DenseOutput spans exactly [t_prev, t_next] and DO_Inv holds, "
-         "both directions; (5) pruning with dense output off keeps that piece: once a step is recorded the newest piece ends at the current time (loop invariant), remove_interpolant drops the oldest piece in both directions.",
+         "both directions; (5) pruning with dense output off keeps that piece: once a step is recorded the newest piece ends at the current time (loop invariant), remove_interpolant drops the oldest piece in both directions. Float-side lemmas _bracket_tol and _probe_offset (defect F34, repaired: classification samples collapsed onto the root at |t| >= 1e8); the functions given to the root finder are built in this call from this call's dense solution (a value read from module-level state is arbitrary at entry: refuted).",
     note="link (1) holds unless the 64-iteration cap binds (bounded native); the float-spacing defect F9b (repaired) was outside A1 and found by the bounded family; 1..6 events / 12 orders of magnitude only natively; A1, A4",
     technique="chain of contracts (callee post => caller pre) on the real code, ghost obligations per loop iteration, z3",
     design_ref="DESIGN.md section 10 (events)")
@@ -160,7 +160,7 @@ CHECKS["C15"] = dict(level="proof", engine="pyvc",
          "(region A-xtol, bounded native only; the rule's scale is pinned by an iteration clause: xtol == tol * (n + ||x||) in both solvers, so the region cannot silently grow); the residual handed back is f at the point handed back (identity links along every path); in the front end the reported precision is that residual norm on the "
          "dogleg and Newton branches, success means a small residual or the step-size rule, and a failed attempt restarts the next solver from the caller's x0. The two defects this refuted (F18 trust-region collapse "
          "counted as success, F18b step norm reported as precision) were repaired.",
-    note="what is proved is the dataflow of the flags, not convergence; MINPACK branch external (A6); the step-size rule region and result shapes are bounded native clauses (n = 1..12, float64 / longdouble); scalar wrapper not under contract",
+    note="what is proved is the dataflow of the flags, not convergence; MINPACK branch external (A6); the step-size rule region and result shapes are bounded native clauses (n = 1..12, float64 / longdouble); scalar wrapper not under contract; loose tolerances (1e-3, 1e-4) on rootless systems are in the bounded native family",
     technique="contracts + cut for-loops on the real AST with an opaque-value abstraction of the linear algebra, ghost identity links, z3",
     design_ref="DESIGN.md section 10 (C15)")
 NOT_APPLICABLE = {}
